@@ -247,7 +247,8 @@ def pack(value: int, size: int | None = None, endian: str = "little") -> bytes:
         size: Integer size in bits.
         endian: Endianness to use (little, big, network, <, > or !)
     """
-    size = ((size or value.bit_length()) + 7) // 8
+    # Without a size, use the smallest number of bytes that holds the value (and the sign bit of a negative one)
+    size = ((size or (value.bit_length() if value >= 0 else (~value).bit_length() + 1)) + 7) // 8
     return value.to_bytes(size, ENDIANNESS_MAP.get(endian, endian), signed=value < 0)
 
 
